@@ -134,6 +134,12 @@ def run_case(case: Dict[str, Any], ctx) -> None:
                 ctx.violation(key(f"grad-shape:{name}"), f"{tuple(gu.shape)} vs {tuple(gr.shape)}", cfg=cfg)
                 return
             if not bool(torch.isfinite(gu).all()):
+                if gr.numel() and float(gr.abs().max()) > torch.finfo(gr.dtype).max / 16:
+                    # the reference gradient itself lies within 4 bits of the dtype's overflow threshold (float16: > 4094): whether
+                    # an intermediate overflows is decided by the order of operations, not by the property
+                    ctx.count("excluded:reference-gradient-near-the-overflow-threshold")
+                    ctx.skip("reference gradient near the dtype's overflow threshold")
+                    return
                 ctx.violation(key(f"grad-nonfinite:{name}"), "library gradient non-finite, reference finite", cfg=cfg)
                 return
         if any(b is None for b in bs):
